@@ -31,12 +31,20 @@
 
 use std::cmp::{max, min};
 use std::collections::BTreeSet;
+#[cfg(not(yamaquasi_verif_loom))]
 use std::sync::atomic::{AtomicBool, AtomicUsize, Ordering};
+#[cfg(yamaquasi_verif_loom)]
+use crate::verif_shim::sync::atomic::{AtomicBool, AtomicUsize, Ordering};
+#[cfg(not(yamaquasi_verif_loom))]
 use std::sync::RwLock;
+#[cfg(yamaquasi_verif_loom)]
+use crate::verif_shim::sync::RwLock;
 
 use bnum::cast::CastFrom;
 use num_traits::One;
 use rayon::prelude::*;
+#[cfg(yamaquasi_verif_loom)]
+use crate::verif_shim as rayon;
 
 use crate::arith::{self, Num, I256, U256};
 use crate::fbase::{self, FBase, Prime};
